@@ -12,7 +12,9 @@ symbols (tracer/recipes/c07.py) and proved equal to the model (coq/tie/C07_Tie*.
 quantisation chain and shift_w_double_phase are traced per sample and proved equal to the model for all reals;
 translator self-check against the real functions.  Tie B2: the crop window of the NumPy routine is evaluated in Coq
 for every size 1..N and compared with the window the traced source uses and with the shapes the implementation returns.
-Direct oracles: finite, resolution, |h| = 1, phase range / grid, re-propagation of the returned hologram with the same
+Routines: learn.wave gerchberg_saxton, stochastic_gradient_descent, shift_w_double_phase, point_wise (oracle only: finite, resolution),
+multi_color / multiplane optimisers; wave gerchberg_saxton, gerchberg_saxton_3d (body + epilogue tied for 'no constraint').
+Direct oracles: finite, resolution, |h| = 1 where the routine advertises phase-only output, phase range / grid, re-propagation of the returned hologram with the same
 settings (a fresh propagator object for the class-based optimisers), double-phase reference in float64.
 """
 import json, math, types
@@ -24,14 +26,14 @@ from tracer import shim
 
 PROPS = ['C07_gcf_unit', 'C07_sgd_consistent', 'C07_sgd_unit', 'C07_gs_torch_consistent', 'C07_gs_torch_h0_irrelevant',
          'C07_gs_torch_loop_reconstruction_is_constrained', 'C07_gs_numpy_consistent', 'C07_gs_numpy_unit',
-         'C07_gs_numpy_resolution', 'C07_crop_inverts_pad', 'C07_window_has_input_size',
+         'C07_gs_numpy_resolution', 'C07_gs3d_resolution', 'C07_gs3d_sum_of_phasors', 'C07_gs3d_finite', 'C07_gs3d_single_plane_unit', 'C07_crop_inverts_pad', 'C07_window_has_input_size',
          'C07_gs_numpy_legacy_window_refuted', 'C07_gs_numpy_legacy_window_odd', 'C07_gs_numpy_legacy_window_partial',
          'C07_quant_level', 'C07_quant_range', 'C07_quant_grid', 'C07_quant_error', 'C07_quant_idempotent',
          'C07_multicolor_consistent', 'C07_multicolor_displayable', 'C07_multiplane_consistent', 'C07_multiplane_unit',
          'C07_dpe_checkerboard', 'C07_dpe_encodes', 'C07_dpe_finite', 'C07_global_phase_unit',
          'C07_global_phase_arg_in_float_range', 'C07_legacy_global_phase_refuted', 'C07_legacy_global_phase_overflows',
          'C07_legacy_global_phase_partial', 'C07_instance']
-TIES = ['C07_TieE', 'C07_TieSGD', 'C07_TieGST', 'C07_TieGSN', 'C07_TieMC', 'C07_TieMP', 'C07_TieSWDP']
+TIES = ['C07_TieE', 'C07_TieSGD', 'C07_TieGST', 'C07_TieGSN', 'C07_TieGS3', 'C07_TieMC', 'C07_TieMP', 'C07_TieSWDP']
 T_METHODS = ['Angular Spectrum', 'Bandlimited Angular Spectrum', 'Transfer Function Fresnel']
 N_METHODS = ['Angular Spectrum', 'Bandlimited Angular Spectrum', 'Transfer Function Fresnel', 'Impulse Response Fresnel']
 TWO_PI = 2 * math.pi
@@ -126,6 +128,43 @@ def oracle_gs_numpy(inp):
     e = rel(r, r2)
     out.append((fn, 'reconstruction_is_propagated_hologram', e <= 1e-9, 'crop(propagate_beam(zero_pad(returned hologram), ...))', {'max_rel_diff': e}))
     return out
+
+
+def oracle_gs3d(inp):
+    """odak.wave.gerchberg_saxton_3d returns the hologram only (documented as a complex hologram: a sum of one unit-amplitude layer per
+    plane): the clauses that apply are finite, input resolution, modulus <= number of planes, and unit amplitude for a single plane"""
+    N = nw(); fn = 'odak.wave.gerchberg_saxton_3d'
+    L, h, w = inp['shape']
+    fields = np.stack([image(inp['fseed'] + d, (h, w), inp.get('kind', 'random')) for d in range(L)]).astype(complex)
+    ip = np.random.default_rng(inp['fseed'] + 7).uniform(0, TWO_PI, (h, w)) if inp.get('initial_phase') else None
+    np.random.seed(inp['seed'])
+    try:
+        ho = N.gerchberg_saxton_3d(fields, inp['n'], list(inp['distances']), inp['dx'], inp['lam'], propagation_type=inp['method'], initial_phase=ip,
+                                   target_type=inp['target_type'], coefficients=inp.get('coefficients'))
+    except Exception as e:
+        return [(fn, 'returns', False, 'a hologram', repr(e)[:200])]
+    out = [(fn, 'finite', finite(ho), True, finite(ho)), (fn, 'resolution', list(ho.shape) == [h, w], [h, w], list(ho.shape))]
+    if not finite(ho) or list(ho.shape) != [h, w]: return out
+    a = np.abs(ho).astype(np.float64)
+    out.append((fn, 'modulus_at_most_number_of_planes', float(a.max()) <= L + 1e-4, '|hologram| <= %d' % L, {'max': float(a.max())}))
+    if L == 1:
+        dev = float(np.abs(a - 1).max())
+        out.append((fn, 'unit_amplitude', dev <= 1e-5, '|hologram| = 1 (single plane)', {'max_dev': dev}))
+    return out
+
+
+def oracle_point_wise(inp):
+    """odak.learn.wave.point_wise returns a COMPLEX hologram (not phase-only) and no reconstruction: the clauses that apply are
+    finite and input resolution"""
+    L = lw(); fn = 'odak.learn.wave.point_wise'
+    shape = tuple(inp['shape'])
+    target = torch.tensor(image(inp['fseed'], shape, inp.get('kind', 'random')), dtype=torch.float32)
+    try:
+        ho = L.point_wise(target, inp['lam'], inp['z'], inp['dx'], torch.device('cpu'), lens_size=inp.get('lens_size', 401))
+    except Exception as e:
+        return [(fn, 'returns', False, 'a hologram', repr(e)[:200])]
+    return [(fn, 'finite', finite(ho), True, finite(ho)),
+            (fn, 'resolution', list(ho.shape) == list(shape) and ho.is_complex(), [list(shape), 'complex'], [list(ho.shape), str(ho.dtype)])]
 
 
 def oracle_sgd(inp):
@@ -301,7 +340,7 @@ def oracle_swdp(inp):
     return out
 
 
-ORACLES = {'gs_torch': oracle_gs_torch, 'gs_numpy': oracle_gs_numpy, 'sgd': oracle_sgd, 'multicolor': oracle_multicolor,
+ORACLES = {'gs_torch': oracle_gs_torch, 'gs_numpy': oracle_gs_numpy, 'gs3d': oracle_gs3d, 'point_wise': oracle_point_wise, 'sgd': oracle_sgd, 'multicolor': oracle_multicolor,
            'multiplane': oracle_multiplane, 'swdp': oracle_swdp}
 
 
@@ -351,6 +390,15 @@ def gen_cases(ctx):
             cases.append(('gs_numpy', {'cat': 'structured', 'shape': list(s), 'fseed': rng.randrange(10 ** 6), 'seed': rng.randrange(10 ** 6), 'n': [1, 2, 3][(i + r + 1) % 3],
                                        'z': z, 'dx': dx, 'lam': lam, 'method': N_METHODS[(i + r) % 4], 'initial_phase': i % 3 == 2}))
             lam, dx, z = optics(rng)
+            L = 1 + (i + r) % 3
+            dc = (i + r) % 4 == 1
+            cases.append(('gs3d', {'cat': 'structured', 'shape': [L] + list(s), 'fseed': rng.randrange(10 ** 6), 'seed': rng.randrange(10 ** 6), 'n': [1, 2, 3][(i + r) % 3],
+                                   'distances': [z + 1.5 * d for d in range(L)], 'dx': dx, 'lam': lam, 'method': N_METHODS[(i + r + 1) % 4], 'initial_phase': i % 3 == 1,
+                                   'target_type': 'double constraint' if dc else 'no constraint', 'coefficients': [rng.uniform(0.6, 1.2), rng.uniform(0.1, 0.9), rng.uniform(0.05, 0.5)] if dc else None}))
+            lam, dx, z = optics(rng)
+            cases.append(('point_wise', {'cat': 'structured', 'shape': list(s), 'fseed': rng.randrange(10 ** 6), 'z': z, 'dx': dx, 'lam': lam, 'lens_size': [401, 3, 5, 2][(i + r) % 4],
+                                         'kind': ['random', 'delta', 'checker', 'random'][(i + r) % 4]}))
+            lam, dx, z = optics(rng)
             cases.append(('sgd', {'cat': 'structured', 'shape': list(s), 'fseed': rng.randrange(10 ** 6), 'seed': rng.randrange(10 ** 6), 'n': [1, 2, 3][(i + r + 2) % 3],
                                   'z': z, 'dx': dx, 'lam': lam, 'method': T_METHODS[(i + r + 1) % 3], 'lr': rng.choice([0.1, 0.01, 1.0])}))
             lam, dx, z = optics(rng)
@@ -381,6 +429,11 @@ def gen_cases(ctx):
             cases.append(('gs_numpy', {'cat': 'boundary', 'shape': list(s), 'fseed': 1, 'seed': 2, 'n': 1, 'z': 10.0, 'dx': dx, 'lam': lam, 'method': 'Angular Spectrum', 'kind': kind}))
             cases.append(('gs_torch', {'cat': 'boundary', 'shape': st, 'fseed': 1, 'n': 1, 'z': -10.0, 'dx': dx, 'lam': lam, 'method': 'Transfer Function Fresnel', 'kind': kind}))
             cases.append(('sgd', {'cat': 'boundary', 'shape': st, 'fseed': 1, 'seed': 3, 'n': 1, 'z': 10.0, 'dx': dx, 'lam': lam, 'method': 'Bandlimited Angular Spectrum', 'kind': kind}))
+        cases.append(('gs3d', {'cat': 'boundary', 'shape': [2] + list(s), 'fseed': 4, 'seed': 5, 'n': 1, 'distances': [0.0, -8.0], 'dx': dx, 'lam': lam, 'method': 'Angular Spectrum',
+                               'target_type': 'no constraint', 'coefficients': None, 'kind': 'delta'}))
+        cases.append(('gs3d', {'cat': 'boundary', 'shape': [1] + list(s), 'fseed': 4, 'seed': 5, 'n': 2, 'distances': [6.0], 'dx': dx, 'lam': lam, 'method': 'Transfer Function Fresnel',
+                               'target_type': 'double constraint', 'coefficients': [1.0, 0.5, 0.1], 'kind': 'zeros'}))
+        cases.append(('point_wise', {'cat': 'boundary', 'shape': st, 'fseed': 4, 'z': -10.0, 'dx': dx, 'lam': lam, 'kind': 'zeros'}))
         cases.append(('gs_numpy', {'cat': 'boundary', 'shape': list(s), 'fseed': 4, 'seed': 5, 'n': 2, 'z': 0.0, 'dx': dx, 'lam': lam, 'method': 'Transfer Function Fresnel'}))
         cases.append(('gs_torch', {'cat': 'boundary', 'shape': st, 'fseed': 4, 'n': 2, 'z': 0.0, 'dx': dx, 'lam': lam, 'method': 'Angular Spectrum'}))
     # depth shifts of either sign, from a fraction of a wavelength to thousands of wavelengths (physical units as well)
@@ -491,11 +544,19 @@ def window_correspondence(ctx):
             win, hs, rs = ('trace failed: %s' % e), None, None
         n += 1
         ok = win == model and hs == [h, w] and rs == [h, w]
+        try:
+            ho3, _, _ = recipe.trace_gs3d(recipe.Lits(), h, w)
+            win3 = list(ho3.a[:4]) if ho3.op == 'slice' else None
+        except Exception as e:
+            win3 = 'trace failed: %s' % e
+        if win3 != model:
+            ok = False; win = {'gerchberg_saxton': win, 'gerchberg_saxton_3d': win3}
         if ok and h * w <= 144:
             try:
                 np.random.seed(0)
                 ho, re = N.gerchberg_saxton(np.ones((h, w), dtype=complex), 1, 5.0, 1.2, 0.5, propagation_type='Angular Spectrum')
-                ok = list(ho.shape) == [h, w] and list(re.shape) == [h, w]
+                h3 = N.gerchberg_saxton_3d(np.ones((2, h, w), dtype=complex), 1, [5.0, 6.0], 1.2, 0.5, propagation_type='Angular Spectrum')
+                ok = list(ho.shape) == [h, w] and list(re.shape) == [h, w] and list(h3.shape) == [h, w]
                 if not ok: win = 'implementation returned shapes %s %s' % (ho.shape, re.shape)
             except Exception as e:
                 ok = False; win = 'implementation raised %r' % (e,)
@@ -503,7 +564,7 @@ def window_correspondence(ctx):
             bad += 1
             if bad <= 4: ctx.log('crop window: size', (h, w), 'model', model, 'source', win, hs, rs)
     ctx.traces += n
-    ctx.obligation('correspondence:gs-numpy-crop-window(model evaluated in Coq = window used by the traced source = implementation shapes, %d sizes 1..%d incl. odd)' % (n, sizes[-1]),
+    ctx.obligation('correspondence:gs-numpy-crop-window(model evaluated in Coq = window used by the traced gerchberg_saxton and gerchberg_saxton_3d = implementation shapes, %d sizes 1..%d incl. odd)' % (n, sizes[-1]),
                    bad == 0 and n > 0, '%d disagreements' % bad)
     ctx.exhaustive = False
 
@@ -529,7 +590,7 @@ def run(ctx):
         ctx.programs += len(g.defs) + len(defs)
         for r in recipe.ROUTINES:
             ctx.obligation('translator:trace-%s' % r, r not in errors, errors.get(r, ''))
-        ctx.extra['traced'] = {n: t for n, _, _, t in defs if n in ('t_sgd_rec', 't_gst_body_rec', 't_gsn_body_5x3', 't_gsn_epi_rec_5x3', 't_mp_rec_1', 't_swdp_blur_prop')}
+        ctx.extra['traced'] = {n: t for n, _, _, t in defs if n in ('t_sgd_rec', 't_gst_body_rec', 't_gsn_body_5x3', 't_gsn_epi_rec_5x3', 't_gs3_body_5x3', 't_mp_rec_1', 't_mp_loop_holo', 't_swdp_blur_prop')}
         ctx.extra['trace_notes'] = json.loads(json.dumps(notes, default=str))
         ctx.compile_tie('GenC07', g.text(), [])
         ctx.compile_tie('GenC07P', textp, [TIES])
@@ -560,6 +621,9 @@ def search(ctx):
         apply_oracle(ctx, 'gs_numpy', {'cat': 'search', 'shape': s, 'fseed': i, 'seed': i, 'n': 1 + i % 3, 'z': z, 'dx': dx, 'lam': lam, 'method': N_METHODS[i % 4]}, count=False)
         apply_oracle(ctx, 'swdp', {'cat': 'search', 'shape': s, 'fseed': i, 'ds': -rng.uniform(5.0, 2000.0) * lam * (1 if i % 2 else -1), 'dx': dx, 'lam': lam,
                                    'method': T_METHODS[2 * (i % 2)], 'kernel_length': 4, 'sigma': 0.5, 'amplitude': None}, count=False)
+        apply_oracle(ctx, 'gs3d', {'cat': 'search', 'shape': [1 + i % 3] + s, 'fseed': i, 'seed': i, 'n': 1 + i % 2, 'distances': [z, z + 1.0, z + 2.0][:1 + i % 3], 'dx': dx, 'lam': lam,
+                                   'method': N_METHODS[i % 4], 'target_type': ['no constraint', 'double constraint'][i % 2], 'coefficients': [1.0, 0.5, 0.1]}, count=False)
+        apply_oracle(ctx, 'point_wise', {'cat': 'search', 'shape': s, 'fseed': i, 'z': z, 'dx': dx, 'lam': lam}, count=False)
         apply_oracle(ctx, 'gs_torch', {'cat': 'search', 'shape': s, 'fseed': i, 'n': 1 + i % 3, 'z': z, 'dx': dx, 'lam': lam, 'method': T_METHODS[i % 3]}, count=False)
         apply_oracle(ctx, 'sgd', {'cat': 'search', 'shape': s, 'fseed': i, 'seed': i, 'n': 1 + i % 3, 'z': z, 'dx': dx, 'lam': lam, 'method': T_METHODS[i % 3]}, count=False)
         apply_oracle(ctx, 'multiplane', {'cat': 'search', 'res': s, 'fseed': i, 'seed': i, 'n': 1 + i % 2, 'planes': 1 + i % 3, 'lam': lam, 'dx': dx, 'location': z / 4, 'spacing': 1.0,
